@@ -572,6 +572,9 @@ pub enum StreamState {
 pub struct SearchStream<'a, S, A> {
     pub(crate) ldap: Ldap,
     pub(crate) rx: Option<mpsc::UnboundedReceiver<(SearchItem, Vec<Control>)>>,
+    // message ID of the Search itself; the handle's last_id changes if the
+    // handle is used for another operation while the stream is open
+    pub(crate) id: crate::RequestId,
     state: StreamState,
     #[allow(clippy::type_complexity)]
     adapters: Vec<Arc<Mutex<Box<dyn Adapter<'a, S, A> + 'a>>>>,
@@ -589,6 +592,7 @@ where
         SearchStream {
             ldap,
             rx: None,
+            id: 0,
             state: StreamState::Fresh,
             adapters: adapters.into_iter().map(Mutex::new).map(Arc::new).collect(),
             ax: 0,
@@ -661,7 +665,9 @@ where
         if let Some(timeout) = self.timeout {
             self.ldap.with_timeout(timeout);
         }
-        self.ldap.op_call(LdapOp::Search(tx), req).await.map(|_| {
+        let res = self.ldap.op_call(LdapOp::Search(tx), req).await;
+        self.id = self.ldap.last_id;
+        res.map(|_| {
             self.state = StreamState::Active;
         })
     }
@@ -670,8 +676,7 @@ where
         let item = if let Some(timeout) = self.timeout {
             let res = time::timeout(timeout, self.rx.as_mut().unwrap().recv()).await;
             if res.is_err() {
-                let last_id = self.ldap.last_id;
-                self.ldap.id_scrub_tx.send(last_id)?;
+                self.ldap.id_scrub_tx.send(self.id)?;
             }
             res?
         } else {
@@ -699,7 +704,7 @@ where
 
     pub(crate) async fn finish_inner(&mut self) -> LdapResult {
         if self.state != StreamState::Done {
-            let last_id = self.ldap.last_id;
+            let last_id = self.id;
             if let Err(e) = self.ldap.id_scrub_tx.send(last_id) {
                 warn!(
                     "error sending scrub message from SearchStream::finish() for ID {}: {}",
